@@ -225,7 +225,13 @@ class Check:
     def main(self):
         self.prepare()
         if self.bdir is not None or not self.needs_native:
-            self.body()
+            try:
+                self.body()
+            except Exception:   # the implementation did something the check's own code did not expect
+                import traceback
+                tb = traceback.format_exc()
+                log(tb)
+                self.corr_broken.append(("check", "-", "-", "the check itself failed while examining the implementation's output:\n" + tb[-1500:], ""))
             # thorough tier: the whole body again on further independent random streams
             reps = int(os.environ.get("VERIF_THOROUGH_REPS", "3")) if self.tier == "thorough" else 1
             for k in range(1, reps):
